@@ -23,8 +23,10 @@ RULE = ("every binary operator (+ - * / **) with a MeasurementArray on either si
         "lengths 1-8; arrays carry units and names; same-position correlations between two "
         "arrays. Compared per element: (i) the real scalar operation on the same element objects "
         "(value, uncertainty, unit string, plain-vs-quantity) and (ii) the Lean model (value, "
-        "uncertainty under the FB bound), plus length and container type. Quick: sampled "
-        "combinations; thorough: operator x kind x kind enumerated completely. Non-trivial = a "
+        "uncertainty under the FB bound), plus length and container type. Quick: every operator "
+        "x order x kind x kind class once + 60 compositions; thorough: every class 12 times (one of "
+        "them with length 1) + 15000 compositions (exhaustive = the combination classes are "
+        "enumerated completely; contents are sampled). Non-trivial = a "
         "quantity-valued result whose elements have non-zero uncertainty coming from both sides "
         "of a binary operation or through a non-linear function; distinct by hash of the case")
 ASSUMPTIONS = ["theorems are about the model in which element-wise-ness holds by construction; that "
@@ -316,23 +318,19 @@ def gen_cases(ctx):
     cases = []
     exhaustive = False
     if ctx.quick:
-        # every combination class is visited over a few seeds; a seeded sample per run
-        pick = rng.sample(combos, 170)
-        # make sure each operator in both orders and each function is present in every run
-        must = [("op", op, rng.choice(G.OTHER_KINDS), left) for op in G.OPS for left in (True, False)]
-        must += [("fn", cls, name, "marray") for cls, name in G.FUNCS]
-        must += [("log2", a, b) for a, b in (("marray", "marray"), ("marray", "scalarFloat"),
-                                              ("scalarFloat", "marray"), ("scalarFloat", "scalarFloat"))]
-        for c in must + pick:
+        # every operator x order x kind, function x kind and log kind x kind class once (random
+        # lengths and contents), plus random compositions
+        exhaustive = True
+        for c in combos:
             cases.append(G.gen_combo(rng, c))
-        for _ in range(40):
+        for _ in range(60):
             cases.append(G.gen_tree(rng))
     else:
         exhaustive = True
-        for rep in range(4):
+        for rep in range(12):
             for c in combos:
                 cases.append(G.gen_combo(rng, c, n=1 if rep == 0 else None))
-        for _ in range(3000):
+        for _ in range(15000):
             cases.append(G.gen_tree(rng))
     return cases, exhaustive, len(combos)
 
